@@ -2179,6 +2179,10 @@ func ruleFlagSetStores(w *World, r *Report, rule string) {
 				case *ssa.ChangeType:
 					rec(x.X, d+1)
 				case *ssa.Call:
+					// the parsed value, possibly converted by a call — but not joined onto what the option held before
+					if bi, isBi := x.Common().Value.(*ssa.Builtin); isBi && bi.Name() == "append" {
+						return
+					}
 					for _, a := range x.Common().Args {
 						rec(a, d+1)
 					}
